@@ -588,6 +588,7 @@ theorem ninv_step {s : Node} {e : Event} (hs : NInv s) (hok : Ok s e) : NInv (st
     · exact hs y hy
     · exact cinv_default k
   | role r => exact hs
+  | unattached c => exact hs
   | request c short q =>
     intro y hy
     simp only [step, stepRequest] at hy
@@ -732,6 +733,7 @@ theorem okb_ok {s : Node} {e : Event} (h : okb s e = true) : Ok s e := by
   | accept _ => trivial
   | linkDown _ => trivial
   | role _ => trivial
+  | unattached _ => trivial
   | leader _ => trivial
   | close _ => trivial
 
